@@ -1,10 +1,15 @@
 // C06 - non-modifying sequence algorithms, min/max family, iterator helpers  vs libstdc++ (DESIGN 4, C06)
 #include "vf.hpp"
 #include "vf_contract.hpp"
-#include "vf_algo.hpp"
+#include "vf_algo_tests.hpp"
+
+#ifndef C06_PART
+    #define C06_PART 0 // 0 = everything, 1 / 2 = halves (compiled in parallel)
+#endif
 
 namespace c06 {
 
+#if C06_PART != 2
 // ---------------------------------------------------------------- all_of / any_of / none_of / count_if / find_if / find_if_not
 template <typename K>
 void k_unary_pred(Ctx& c)
@@ -180,6 +185,8 @@ void t_for_each(Ctx& c)
     k_for_each<KFwd>(c);
 }
 
+#endif
+#if C06_PART != 1
 // ---------------------------------------------------------------- two-range comparisons: mismatch, equal, lexicographical_compare, is_permutation
 inline char const* rel(std::size_t n1, std::size_t n2) { return n1 == n2 ? "len2=len1" : (n2 < n1 ? "len2<len1" : "len2>len1"); }
 
@@ -351,6 +358,8 @@ void t_pairs_mixed(Ctx& c)
     k_pairs<KBidi, KRa>(c);
 }
 
+#endif
+#if C06_PART != 2
 // ---------------------------------------------------------------- search / find_end / find_first_of
 template <typename K1, typename K2>
 void k_search(Ctx& c)
@@ -433,34 +442,6 @@ void t_search_fwd(Ctx& c)
     k_search<KIn, KFwd>(c); // find_first_of only
 }
 
-// ---------------------------------------------------------------- search_n (pointer instantiation; forward iterators: see C06_probe)
-template <typename K>
-void k_search_n(Ctx& c)
-{
-    std::size_t const n = c.a.size();
-    Seq const& m        = c.a;
-    for (Pres pr : pres_for<K>(n)) {
-        for (long cnt = -1; cnt <= (long)n + 1; ++cnt) {
-            for (int v = 0; v <= c.maxkey + 1; ++v) {
-                for (int em = -1; em <= 1; ++em) {
-                    Eq eq{em < 0 ? 0 : em};
-                    El val{v, -1};
-                    auto se = (em < 0 ? std::search_n(m.begin(), m.end(), cnt, val) : std::search_n(m.begin(), m.end(), cnt, val, eq)) - m.begin();
-                    char op[64], ex[48];
-                    std::snprintf(op, sizeof op, "search_n(f,l,n,v%s)%s", em < 0 ? "" : ",p", eq_name(em));
-                    std::snprintf(ex, sizeof ex, "%s,%s", cnt < 0 ? "n<0" : (cnt == 0 ? "n=0" : (cnt == 1 ? "n=1" : (cnt > (long)n ? "n>len" : "n>=2"))),
-                        se == (long)n ? "absent" : "found");
-                    Trial t(c, K::name, op, pr, ex, vf::mix((std::uint64_t)(cnt + 2), vf::mix(v, em + 1)), "n=%ld v=%d", cnt, v);
-                    Range<El> r(c.a, pr, false);
-                    auto ee = em < 0 ? t.call([&] { return etl::search_n(B<K>(r), E<K>(r), cnt, val); })
-                                     : t.call([&] { return etl::search_n(B<K>(r), E<K>(r), cnt, val, eq); });
-                    t.off("ret", K::raw(ee) - r.lo, se);
-                    FIN(t, r);
-                }
-            }
-        }
-    }
-}
 void t_search_n(Ctx& c) { k_search_n<KPtr>(c); }
 
 // ---------------------------------------------------------------- adjacent_find / is_sorted / is_sorted_until / min,max,minmax _element
@@ -700,23 +681,35 @@ void t_iter_helpers(Ctx& c)
     k_iter_helpers<KRa>(c);
 }
 
+#endif
+
 Test const kTests[] = {
+#if C06_PART != 2
     {"unary_pred", t_unary_pred},
     {"by_value", t_by_value},
     {"for_each", t_for_each},
-    {"pairs_ptr", t_pairs_ptr},
-    {"pairs_in", t_pairs_in},
-    {"pairs_fwd", t_pairs_fwd},
-    {"pairs_mixed", t_pairs_mixed},
     {"search_ptr", t_search_ptr},
     {"search_fwd", t_search_fwd},
     {"search_n", t_search_n},
     {"scan", t_scan},
     {"scalar", t_scalar},
     {"iter_helpers", t_iter_helpers},
+#endif
+#if C06_PART != 1
+    {"pairs_ptr", t_pairs_ptr},
+    {"pairs_in", t_pairs_in},
+    {"pairs_fwd", t_pairs_fwd},
+    {"pairs_mixed", t_pairs_mixed},
+#endif
 };
 std::size_t const kNumTests = sizeof(kTests) / sizeof(kTests[0]);
 
 } // namespace c06
 
+#if C06_PART == 1
+C06_MAIN("C06_nonmod_a")
+#elif C06_PART == 2
+C06_MAIN("C06_nonmod_b")
+#else
 C06_MAIN("C06_nonmod")
+#endif
